@@ -87,7 +87,7 @@ class Driver(object):
                               else None),
                    coq_option(coq_bytes(rxb) if rxb is not None else None)))
         cobs = ('{| pg_result := %s; pg_reqs := %s; pg_fuel_out := false |}' % (
-            coq_list([coq_nat(k) for k in res]),
+            '(' + coq_list(['%d' % k for k in res]) + '%N)',
             coq_list(['{| o_page := %s; o_size := %s; o_name := %s; '
                       'o_regex := %s; o_pagination := %s |}' % (
                           coq_nat(r['page']), coq_nat(r['size']),
